@@ -855,7 +855,8 @@ func certainlyFails(ret *ssa.Return) bool {
 		return false
 	}
 	switch sc.Pkg.Pkg.Path() + "." + sc.Name() {
-	case "fmt.Errorf", "errors.New", "google.golang.org/grpc/status.Errorf", "google.golang.org/grpc/status.Error":
+	case "fmt.Errorf", "errors.New", "google.golang.org/grpc/status.Errorf", "google.golang.org/grpc/status.Error",
+		core.PkgGcsemu + ".fmtErrorfCode":
 		return true
 	}
 	return false
